@@ -24,6 +24,20 @@ type Clause struct {
 	Trusted bool // postcondition assumed at call sites but not proved for the function itself (listed as an assumption)
 }
 
+// Taint: `taint <specfn> const`, `taint <specfn> field <pkg.Type.Field> ...`.
+// In functions of the declaring package, every string constant (Consts) and
+// every value loaded from a listed field satisfies the predicate; a
+// concatenation of strings that satisfy it satisfies it, and so does a
+// substring. These are ground facts added at the instruction that produces the
+// value (listed as assumptions: the predicate's meaning for constants and
+// fields is the contract author's claim).
+type Taint struct {
+	Fn      string
+	PkgPath string
+	Consts  bool
+	Fields  map[string]bool
+}
+
 type LoopSpec struct {
 	Invariants []Clause
 	Decreases  []Clause // lexicographic
@@ -78,6 +92,7 @@ type Contract struct {
 	AtCalls  map[string][]GhostStmt
 	Ghosts   []GhostDecl
 	Safety   bool // generate runtime-panic obligations
+	NoTermAll bool // termination of the function's loops is not claimed
 	SafetyOff map[string]bool // kinds of runtime-panic obligations not generated (permitted exits)
 	MayPanic bool // explicit panics are a permitted exit (default true)
 	File     string
@@ -113,6 +128,7 @@ type Specs struct {
 	Contracts map[string]*Contract // full key: pkgpath + "::" + relkey, externs: fullname
 	Preds     map[string]*Pred     // pkgpath::name and bare name fallback
 	SpecFns   map[string]*SpecFn
+	Taints    []*Taint // per package: a predicate that string constants / listed fields satisfy and that concatenation and slicing preserve
 	Axioms    []Axiom
 	GGhosts   map[string]string // package-level ghost variables: "pkgpath.name" -> type
 	GhostFields map[string]string // "pkgpath.Type.field" -> type
@@ -524,6 +540,8 @@ func (sp *Specs) loadSpecFile(path, pkgPath string) error {
 		case "noterm":
 			if curLoop != nil {
 				curLoop.NoTerm = true
+			} else if cur != nil {
+				cur.NoTermAll = true
 			}
 		case "orderfree", "exitany":
 			if curLoop == nil {
@@ -637,6 +655,31 @@ func (sp *Specs) loadSpecFile(path, pkgPath string) error {
 			if _, ok := sp.Preds[p.Name]; !ok {
 				sp.Preds[p.Name] = p
 			}
+		case "taint":
+			fs := strings.Fields(rest)
+			if len(fs) < 2 {
+				return fail(fmt.Errorf("taint <specfn> const | field <pkg.Type.Field>..."))
+			}
+			var t *Taint
+			for _, x := range sp.Taints {
+				if x.Fn == fs[0] && x.PkgPath == pkgPath {
+					t = x
+				}
+			}
+			if t == nil {
+				t = &Taint{Fn: fs[0], PkgPath: pkgPath, Fields: map[string]bool{}}
+				sp.Taints = append(sp.Taints, t)
+			}
+			switch fs[1] {
+			case "const":
+				t.Consts = true
+			case "field":
+				for _, f := range fs[2:] {
+					t.Fields[f] = true
+				}
+			default:
+				return fail(fmt.Errorf("taint: const or field expected"))
+			}
 		case "specfn":
 			// specfn name(a T) R
 			i := strings.Index(rest, "(")
@@ -731,6 +774,8 @@ func (sp *Specs) resolveLikes() error {
 			c.Props = ft.Props
 		}
 		c.Preserves = append(c.Preserves, ft.Preserves...)
+		c.Safety = c.Safety && ft.Safety
+		c.NoTermAll = c.NoTermAll || ft.NoTermAll
 		if c.MapWrites == "" {
 			c.MapWrites = ft.MapWrites
 		}
